@@ -369,6 +369,11 @@ def expand_macro(text, name, args, path):
     for (s_, e_, a) in find_invocations(text, name):
         if re.sub(r"\s+", "", a).rstrip(",") == want:
             return instantiate_macro(text, name, a, path)
+    # the macro may have gained trailing parameters: the one invocation whose LEADING arguments are the
+    # given ones is the same instantiation
+    pre = [a for (s_, e_, a) in find_invocations(text, name) if re.sub(r"\s+", "", a).startswith(want + ",")]
+    if len(pre) == 1:
+        return instantiate_macro(text, name, pre[0], path)
     raise ExtractError("no invocation %s!(%s) in %s" % (name, ", ".join(args), path))
 
 
@@ -409,7 +414,7 @@ def drop_attrs_and_docs(code):
         s = line.strip()
         if s.startswith("///") or s.startswith("//!"):
             continue
-        if re.match(r"#\[(inline|derive|must_use|allow|doc|cfg_attr)[^\]]*\]$", s):
+        if re.match(r"#\[(inline|derive|must_use|allow|doc|cfg_attr|pin)[^\]]*\]$", s):
             continue
         out.append(line)
     return "\n".join(out)
@@ -1135,6 +1140,14 @@ def process_fn(fn, spec, handle, stats, canary):
     for (fname, old, new) in spec.rewrites:
         if fname != name:
             continue
+        if old.startswith("reall:"):
+            # regex form applied to every match (at least one)
+            rx = re.compile(old[6:].strip())
+            if not rx.search(body):
+                raise ExtractError("declared rewrite on %s no longer matches: %s" % (name, old))
+            body, n_ = rx.subn(lambda mm: mm.expand(new), body)
+            stats["declared_rewrites"] += n_
+            continue
         if old.startswith("optre:"):
             # optional regex form: the rewrite places a re-entry assertion at an explicit guard release; if
             # the release is gone the other obligations of the function (and the free probes) still decide,
@@ -1349,6 +1362,8 @@ def process_fn(fn, spec, handle, stats, canary):
         # local bound before the loop): a proof that only holds in isolation would break on a harmless
         # edit such as `let limit = self.count; while len > limit` (a false alarm)
         pre = "#[verifier::loop_isolation(false)]\n"
+    if name in getattr(spec, "nodecreases", set()):
+        pre += "#[verifier::exec_allows_no_decreases_clause]\n"
     out = "%s%s\n%s\n{%s}\n" % (pre, sig, ctext, body)
     stats["added_lines"] += ctext.count("\n") + 1 if ctext else 0
     return out
@@ -1799,6 +1814,11 @@ def generate_(template_path, variant, canary=False):
                     i += 1
                 elif t[0] == "@@lazyclosures":
                     spec.lazy = t[1]
+                    i += 1
+                elif t[0] == "@@nodecreases":
+                    # the loop of <fn> has no measure in general (it runs as long as its input is ready):
+                    # termination is NOT claimed, partial correctness only
+                    spec.nodecreases = getattr(spec, "nodecreases", set()) | {t[1]}
                     i += 1
                 elif t[0] == "@@lazyfn":
                     # @@lazyfn <parent fn> <name> :: <params> :: <result type> :: <tail expression>
